@@ -72,7 +72,12 @@ Section Generator.
          | Some data =>
            match unmarshal data with
            | None => DErr
-           | Some (r, rest) => if zlen rest =? 0 then DTok (tok_of_rec r) else DErr
+           | Some (r, rest) =>
+             if zlen rest =? 0 then
+               (* protocol.ParseConnectionID panics on more than 20 bytes: refused since fix 5b79229 *)
+               if r_isRetry r && ((sl_MaxConnIDLen <? zlen (r_odcid r)) || (sl_MaxConnIDLen <? zlen (r_rscid r)))
+               then DErr else DTok (tok_of_rec r)
+             else DErr
            end
          end.
 
